@@ -193,6 +193,31 @@ fn ops_sweep(ctx: &mut Ctx, lens: &[usize], block: usize, item0: &mut usize) {
     }
 }
 
+/// The scratch bound must hold for every transform a planner returns, whatever it planned before: each block of
+/// lengths is planned on one planner with multiples first (16n, 6n, then n, descending), so that sub-transforms
+/// cached while planning a larger length are what the smaller request receives.
+fn multiples_first_sweep<T: Real + Elem>(ctx: &mut Ctx, kind: Kind, lens: &[usize], block: usize, item0: &mut usize) {
+    for chunk in lens.chunks(block) {
+        let idx = *item0;
+        *item0 += 1;
+        if !ctx.scenario(idx, &format!("multiples-first {} {} n={}..", kind.name(), T::ELEM, chunk[0])) {
+            continue;
+        }
+        if let Some((pid, mut planner)) = ctx.new_planner::<T>(kind) {
+            let d = DIRS[chunk[0] % 2];
+            for mult in [16usize, 6, 1] {
+                for &n in chunk.iter().rev() {
+                    if n < 2 || n * mult > (1 << 21) {
+                        continue;
+                    }
+                    ctx.case(format!("m {} {} {}x{}", kind.name(), T::ELEM, mult, n), true);
+                    ctx.plan(pid, &mut planner, n * mult, d, false);
+                }
+            }
+        }
+    }
+}
+
 pub fn run_c05(ctx: &mut Ctx) {
     let (n_built, s_built, n_rep, s_rep, n_ops, s_ops) = if ctx.quick() {
         (1024, 1 << 15, 8192, 1 << 22, 2048, 1 << 15)
@@ -205,6 +230,11 @@ pub fn run_c05(ctx: &mut Ctx) {
     for kind in ALL_KINDS {
         built_sweep::<f32>(ctx, kind, &built, 32, &mut item);
         built_sweep::<f64>(ctx, kind, &built, 32, &mut item);
+    }
+    let hist: Vec<usize> = if ctx.quick() { (2..=512).collect() } else { (2..=4096).collect() };
+    for kind in ALL_KINDS {
+        multiples_first_sweep::<f32>(ctx, kind, &hist, 16, &mut item);
+        multiples_first_sweep::<f64>(ctx, kind, &hist, 16, &mut item);
     }
     // (b) plan reports: no naive node above 32
     let rep = lens_upto(n_rep, s_rep);
